@@ -49,7 +49,70 @@ async fn handler(req: DiameterMessage, dict: Arc<Dictionary>, seen: Arc<Mutex<Ve
     let mut res = DiameterMessage::new(req.get_command_code(), req.get_application_id(), 0, req.get_hop_by_hop_id(), req.get_end_to_end_id(), dict);
     res.add_avp(263, None, M, UTF8String::new(&sid).into());
     res.add_avp(268, None, M, Unsigned32::new(2001).into());
+    if sid.starts_with("BIG") {
+        // a large answer (512 KiB): more than a socket buffer holds
+        res.add_avp(25, None, 0, OctetString::new(vec![0x42; 512 * 1024]).into());
+    }
     Ok(res)
+}
+
+/// NETSLOW <tls>: a peer pipelines three requests whose answers are 512 KiB each, closes its sending direction right away, waits,
+/// and only then reads: everything the handler answered must still arrive, complete, before the end of the stream.
+pub fn slow_reader(st: &State, t: &mut Toks) -> PResult<String> {
+    let dict = st.dicts.get("b").ok_or_else(|| "dict b missing".to_string())?.clone();
+    let tls = t.boolean()?;
+    let rt = rt();
+    let out = rt.block_on(async move {
+        let seen = Arc::new(Mutex::new(Vec::new()));
+        let addr = start_server(if tls { Some("match") } else { None }, Arc::clone(&dict), Arc::clone(&seen)).await?;
+        let mut want = 0usize;
+        let mut reqs = Vec::new();
+        for k in 0..3u32 {
+            let sid = format!("BIG-{}", k);
+            reqs.extend_from_slice(&request(&dict, &sid, 900 + k));
+            let mut a = DiameterMessage::new(CommandCode::CreditControl, ApplicationId::CreditControl, 0, 900 + k, (900 + k) ^ 0x5555, Arc::clone(&dict));
+            a.add_avp(263, None, M, UTF8String::new(&sid).into());
+            a.add_avp(268, None, M, Unsigned32::new(2001).into());
+            a.add_avp(25, None, 0, OctetString::new(vec![0x42; 512 * 1024]).into());
+            want += a.get_length() as usize;
+        }
+        let mut got = 0usize;
+        let end;
+        let mut buf = vec![0u8; 65536];
+        if tls {
+            let c = native_tls::TlsConnector::builder().danger_accept_invalid_certs(true).build().map_err(|e| e.to_string())?;
+            let c = tokio_native_tls::TlsConnector::from(c);
+            let s = TcpStream::connect(addr).await.map_err(|e| e.to_string())?;
+            let mut s = c.connect("localhost", s).await.map_err(|e| e.to_string())?;
+            s.write_all(&reqs).await.map_err(|e| e.to_string())?;
+            let _ = s.shutdown().await;
+            tokio::time::sleep(Duration::from_millis(500)).await;
+            end = loop {
+                match tokio::time::timeout(Duration::from_secs(5), s.read(&mut buf)).await {
+                    Ok(Ok(0)) => break "eof",
+                    Ok(Ok(n)) => got += n,
+                    Ok(Err(_)) => break "reset",
+                    Err(_) => break "timeout",
+                }
+            };
+        } else {
+            let mut s = TcpStream::connect(addr).await.map_err(|e| e.to_string())?;
+            s.write_all(&reqs).await.map_err(|e| e.to_string())?;
+            let _ = s.shutdown().await;
+            tokio::time::sleep(Duration::from_millis(500)).await;
+            end = loop {
+                match tokio::time::timeout(Duration::from_secs(5), s.read(&mut buf)).await {
+                    Ok(Ok(0)) => break "eof",
+                    Ok(Ok(n)) => got += n,
+                    Ok(Err(_)) => break "reset",
+                    Err(_) => break "timeout",
+                }
+            };
+        }
+        Ok::<String, String>(format!("NETSLOW got={} want={} end={} calls={}", got, want, end, seen.lock().unwrap().len()))
+    });
+    rt.shutdown_timeout(Duration::from_millis(200));
+    out
 }
 
 fn request(dict: &Arc<Dictionary>, sid: &str, hop: u32) -> Vec<u8> {
@@ -120,7 +183,13 @@ async fn start_server_opt(tls: Option<&str>, dict: Arc<Dictionary>, seen: Arc<Mu
 
 /// a TCP relay that records what the client sends
 async fn start_relay(target: std::net::SocketAddr, rec: Arc<Mutex<Vec<u8>>>) -> PResult<u16> {
-    let l = TcpListener::bind("127.0.0.1:0").await.map_err(|e| e.to_string())?;
+    start_relay_opt(target, rec, false, 0).await
+}
+
+/// `dribble`: what the client sends first is forwarded one octet at a time, 30 ms apart, for its first three octets (TCP
+/// promises no more: a segment may carry a single octet).  `port`: the relay listens there (0 = any free port).
+async fn start_relay_opt(target: std::net::SocketAddr, rec: Arc<Mutex<Vec<u8>>>, dribble: bool, port: u16) -> PResult<u16> {
+    let l = TcpListener::bind(("127.0.0.1", port)).await.map_err(|e| format!("bind {}: {}", port, e))?;
     let port = l.local_addr().map_err(|e| e.to_string())?.port();
     tokio::spawn(async move {
         loop {
@@ -132,10 +201,22 @@ async fn start_relay(target: std::net::SocketAddr, rec: Arc<Mutex<Vec<u8>>>) -> 
                 let (mut sr, mut sw) = s.into_split();
                 let up = tokio::spawn(async move {
                     let mut buf = [0u8; 4096];
+                    let mut singles = if dribble { 3usize } else { 0 };
                     loop {
                         match cr.read(&mut buf).await {
                             Ok(0) | Err(_) => { let _ = sw.shutdown().await; return; }
-                            Ok(n) => { rec.lock().unwrap().extend_from_slice(&buf[..n]); if sw.write_all(&buf[..n]).await.is_err() { return; } }
+                            Ok(n) => {
+                                rec.lock().unwrap().extend_from_slice(&buf[..n]);
+                                let mut off = 0;
+                                while singles > 0 && off < n {
+                                    if sw.write_all(&buf[off..off + 1]).await.is_err() { return; }
+                                    let _ = sw.flush().await;
+                                    tokio::time::sleep(Duration::from_millis(30)).await;
+                                    off += 1;
+                                    singles -= 1;
+                                }
+                                if off < n && sw.write_all(&buf[off..n]).await.is_err() { return; }
+                            }
                         }
                     }
                 });
@@ -172,7 +253,17 @@ pub fn tls_cell(st: &State, t: &mut Toks) -> PResult<String> {
     let cert = t.next()?.to_string();
     let host = match t.next()? { "host" => "localhost", "ip" => "127.0.0.1", s => return Err(format!("addr {}", s)) };
     let marker = t.next()?.to_string();
-    let relisten = matches!(t.next(), Ok("relisten"));
+    let mut relisten = false;
+    let mut dribble = false;
+    let mut relay_port: u16 = 0;
+    while let Ok(tok) = t.next() {
+        match tok {
+            "relisten" => relisten = true,
+            "dribble" => dribble = true,
+            p if p.starts_with("port=") => relay_port = p[5..].parse().map_err(|_| "port".to_string())?,
+            other => return Err(format!("tls cell option {}", other)),
+        }
+    }
     let rt = rt();
     let out = rt.block_on(async move {
         let seen = Arc::new(Mutex::new(Vec::new()));
@@ -181,7 +272,12 @@ pub fn tls_cell(st: &State, t: &mut Toks) -> PResult<String> {
             tokio::time::sleep(Duration::from_millis(120)).await;
         }
         let rec = Arc::new(Mutex::new(Vec::new()));
-        let port = start_relay(addr, Arc::clone(&rec)).await?;
+        let port = match start_relay_opt(addr, Arc::clone(&rec), dribble, relay_port).await {
+            Ok(p) => p,
+            // the fixed port is taken by something else on this machine: the cell cannot be run (reported, not judged)
+            Err(e) if relay_port != 0 => return Ok(format!("TLS skipped {}", e.replace(' ', "_"))),
+            Err(e) => return Err(e),
+        };
         let mut client = DiameterClient::new(&format!("{}:{}", host, port), DiameterClientConfig { use_tls: client_tls, verify_cert: verify });
         let mut out = String::from("TLS");
         let conn = tokio::time::timeout(Duration::from_millis(2500), client.connect()).await;
